@@ -10,6 +10,7 @@ type work struct {
 // startWorker starts a new resource worker that will listen for resources to
 // process requests on.
 func (s *Service) startWorker() {
+	simYield("worker.start", "")
 	s.mu.Lock()
 	defer s.mu.Unlock()
 	defer s.wg.Done()
@@ -17,6 +18,7 @@ func (s *Service) startWorker() {
 	for s.workqueue != nil {
 		for len(s.workqueue) == 0 {
 			s.workcond.Wait()
+			simYieldUnlocked(&s.mu, "worker.wake")
 			if s.workqueue == nil {
 				return
 			}
@@ -39,7 +41,9 @@ func (w *work) processQueue() {
 		f = w.queue[idx]
 		w.s.mu.Unlock()
 		idx++
+		simYield("worker.beforeCb", w.wid)
 		f()
+		simYield("worker.afterCb", w.wid)
 		w.s.mu.Lock()
 	}
 	// Work complete. Delete if it has a work ID.
